@@ -1138,3 +1138,17 @@ V("C20", "win-meminfo-c-builder-swapped", "psutil/arch/windows/proc.c",
   ("        (unsigned long long)cnt.PagefileUsage,\n        (unsigned long long)cnt.PeakPagefileUsage,",
    "        (unsigned long long)cnt.PeakPagefileUsage,\n        (unsigned long long)cnt.PagefileUsage,"),
   "fires:C20.R5")
+V("C03", "defect-F19-returns", I,
+  ("            try:\n                proc = proc.parent()\n            except NoSuchProcess:\n                # An ancestor disappeared while the chain was being\n                # walked: its own parent can't be determined anymore.\n                break\n",
+   "            proc = proc.parent()\n"), "fires:C03.R6")
+V("C01", "eq-tolerates-close-start-times", I,
+  ("        return self._ident == other._ident\n",
+   "        if self.pid == other.pid and abs(self._ident[1] - other._ident[1]) <= 1:\n            return True\n        return self._ident == other._ident\n"),
+  "fires:C01.R6")
+V("C05", "guard-never-consults-is-running", I,
+  ("        if self._pid_reused or (not self.is_running() and self._pid_reused):",
+   "        if self._pid_reused:"), "fires:C05.R3")
+V("C05", "ppid-map-first-paren", L,
+  ("            rpar = data.rfind(b')')\n            dset = data[rpar + 2 :].split()\n            ppid = int(dset[1])",
+   "            dset = data.partition(b') ')[2].split()\n            ppid = int(dset[1])"),
+  "fires:C05.R6")
